@@ -111,8 +111,27 @@ class Mon:
     def attach(self):
         from pydrobert.speech import post as P
 
+        monitor.capture_init(P.Deltas)
+        monitor.capture_init(P.Stack)
         monitor.attach(P.Deltas, "apply", pre=self.pre, post=self.post_deltas)
         monitor.attach(P.Stack, "apply", pre=self.pre, post=self.post_stack)
+
+    @staticmethod
+    def deltas_cfg(d):
+        """(num_deltas, window, target_axis, concatenate, pad_mode, pad_kwargs) from the constructor arguments;
+        private attributes are only a fall-back for instances built before the monitor was attached"""
+        a = monitor.ctor_args(d)
+        if a is not None:
+            return int(d.num_deltas), int(a["context_window"]), a["target_axis"], bool(d.concatenate), a["pad_mode"], dict(a.get("kwargs") or {})
+        nd = int(d.num_deltas)
+        return nd, ((len(d._filts[1]) - 1) // 2 if nd >= 1 else 1), d._target_axis, bool(d.concatenate), d._pad_mode, dict(d._pad_kwargs)
+
+    @staticmethod
+    def stack_cfg(s):
+        a = monitor.ctor_args(s)
+        if a is not None:
+            return a["pad_mode"], dict(a.get("kwargs") or {})
+        return s._pad_mode, dict(s._pad_kwargs)
 
     def v(self, what, **kw):
         self.rec.violation(dict(what=what, case=self.case, **kw))
@@ -153,14 +172,13 @@ class Mon:
         if before.ndim == 0 or before.shape[axis % before.ndim] == 0:
             self.rec.count("deltas_out_of_scope")
             return
-        nd = int(d.num_deltas)
-        window = (len(d._filts[1]) - 1) // 2 if nd >= 1 else 1
-        info = dict(op="deltas", shape=list(before.shape), dtype=str(before.dtype), axis=axis, target_axis=d._target_axis, concatenate=d.concatenate,
-                    num_deltas=nd, window=window, pad_mode=str(d._pad_mode), in_place=bool(kw["in_place"]))
+        nd, window, target_axis, concatenate, pad_mode, pad_kwargs = self.deltas_cfg(d)
+        info = dict(op="deltas", shape=list(before.shape), dtype=str(before.dtype), axis=axis, target_axis=target_axis, concatenate=concatenate,
+                    num_deltas=nd, window=window, pad_mode=str(pad_mode), in_place=bool(kw["in_place"]))
         self.rec.ev()
         self.rec.count("deltas_calls")
         try:
-            ref = deltas_ref(before, nd, window, axis, d._target_axis, d.concatenate, d._pad_mode, d._pad_kwargs)
+            ref = deltas_ref(before, nd, window, axis, target_axis, concatenate, pad_mode, pad_kwargs)
         except Exception as e:
             self.rec.count("deltas_reference_undefined")
             return
@@ -175,7 +193,7 @@ class Mon:
             if out.size and np.shares_memory(out, kw["features"]):
                 self.v("Deltas.apply result aliases its input (in_place=False)", check="aliasing", **info)
         if nd >= 1 and before.shape[axis % before.ndim] >= 2 and before.size:
-            self.rec.nt(("deltas", tuple(before.shape), str(before.dtype), axis, d._target_axis, d.concatenate, nd, window, str(d._pad_mode)))
+            self.rec.nt(("deltas", tuple(before.shape), str(before.dtype), axis, target_axis, concatenate, nd, window, str(pad_mode)))
         self.rec.count("deltas_ndim_%d" % before.ndim)
 
     def post_stack(self, c):
@@ -193,12 +211,13 @@ class Mon:
             self.rec.count("stack_out_of_scope")
             return
         n = int(s.num_vectors)
+        pad_mode, pad_kwargs = self.stack_cfg(s)
         info = dict(op="stack", shape=list(before.shape), dtype=str(before.dtype), axis=kw["axis"], time_axis=s.time_axis, num_vectors=n,
-                    pad_mode=str(s._pad_mode), in_place=bool(kw["in_place"]))
+                    pad_mode=str(pad_mode), in_place=bool(kw["in_place"]))
         self.rec.ev()
         self.rec.count("stack_calls")
         try:
-            ref = stack_ref(before, n, time_axis, axis, s._pad_mode, s._pad_kwargs)
+            ref = stack_ref(before, n, time_axis, axis, pad_mode, pad_kwargs)
         except Exception:
             self.rec.count("stack_reference_undefined")
             return
@@ -219,7 +238,7 @@ class Mon:
             if out.size and np.shares_memory(out, kw["features"]):
                 self.v("Stack.apply result aliases its input (in_place=False)", check="aliasing", **info)
         if n >= 2 and ref.size:
-            self.rec.nt(("stack", tuple(before.shape), str(before.dtype), kw["axis"], s.time_axis, n, str(s._pad_mode)))
+            self.rec.nt(("stack", tuple(before.shape), str(before.dtype), kw["axis"], s.time_axis, n, str(pad_mode)))
         self.rec.count("stack_ndim_%d" % before.ndim)
         if before.shape[time_axis] < n:
             self.rec.count("stack_fewer_frames_than_num_vectors")
